@@ -138,7 +138,7 @@ type faceM struct {
 }
 
 type inRec struct {
-	superseded  map[uint32]bool // nonces of this face's earlier Interests that a certainly accepted retransmission replaced
+	superseded  map[uint32]time.Duration // nonces of this face's earlier Interests that a certainly accepted retransmission replaced -> the nonce's first appearance (as known when it was replaced): its recording is promised for one dead-nonce lifetime from then
 	nonceUnsure bool            // a later Interest from this face may or may not have replaced the nonce
 	nonce       uint32
 	tokens      [][]byte
@@ -735,7 +735,7 @@ func (r *runner) doInterest(op *Op) {
 	// in the dead nonce list (one dead-nonce lifetime from the nonce's first appearance, weakest reading).
 	if loopFrom == 0 && entCertainlyAlive {
 		for f, rec := range ent.in {
-			if f != op.Face && rec.clean && rec.superseded[nonce] && now < m.firstSeen[nk]+dnl-time.Millisecond {
+			if fs, was := rec.superseded[nonce]; was && f != op.Face && rec.clean && now < fs+dnl-time.Millisecond {
 				loopFrom = f
 				r.ctx.Probe("loop/superseded-nonce")
 			}
@@ -763,6 +763,17 @@ func (r *runner) doInterest(op *Op) {
 	if surelyDead {
 		r.ctx.Probe("drop/dead-nonce")
 		r.stats.dropped++
+	}
+	if len(upstream) > 0 && !surelyDead && loopFrom == 0 && op.Nonce > 0 {
+		// The Interest was forwarded, so it passed the dead-nonce check: no record of (name, nonce) existed at this
+		// moment. Whatever record exists from now on was made now or later and is promised for one lifetime from
+		// its making: the nonce's "first appearance" for the weakest-reading bound starts again here, and windows
+		// derived from earlier recordings (all over, or the forwarding would have been reported) are forgotten.
+		if m.firstSeen[nk] != now {
+			r.ctx.Probe("dead-nonce-epoch-restarted-by-observed-forwarding")
+		}
+		m.firstSeen[nk] = now
+		m.dead[nk] = nil
 	}
 
 	// cache answer
@@ -999,9 +1010,9 @@ func (r *runner) doInterest(op *Op) {
 		if accepted {
 			if rec.clean && !rec.nonceUnsure && rec.nonce != nonce {
 				if rec.superseded == nil {
-					rec.superseded = map[uint32]bool{}
+					rec.superseded = map[uint32]time.Duration{}
 				}
-				rec.superseded[rec.nonce] = true
+				rec.superseded[rec.nonce] = m.firstSeen[fmt.Sprintf("%s|%d", op.Name, rec.nonce)]
 			}
 			rec.nonce = nonce
 			rec.nonceUnsure = false
